@@ -23,3 +23,20 @@ benign("c13-eq-as-slice", ["C13"], [("src/impls.rs", "**self == **other", "self.
 benign("c13-debug-index", ["C13"], [("src/impls.rs", "self.as_slice().fmt(fmt)", "Debug::fmt(&self[..], fmt)")])
 benign("c13-cmp-method", ["C13"], [("src/impls.rs", "Ord::cmp(self.as_slice(), other.as_slice())", "self.as_slice().cmp(other.as_slice())")])
 benign("c13-eq-iter", ["C13"], [("src/impls.rs", "**self == **other", "self.as_slice().iter().eq(other.as_slice().iter())")])
+
+# ---- C02 ------------------------------------------------------------------------------------
+mutant("c02-from-slice-lt", ["C02"], [("src/lib.rs", "if slice.len() != N::USIZE {\n            panic!(\"slice.len() != N in GenericArray::from_slice\");", "if slice.len() < N::USIZE {\n            panic!(\"slice.len() != N in GenericArray::from_slice\");")], "C02.G")
+mutant("c02-try-from-slice-gt", ["C02"], [("src/lib.rs", "if slice.len() != N::USIZE {\n            return Err(LengthError);\n        }\n\n        Ok(unsafe { &*(slice.as_ptr()", "if slice.len() > N::USIZE {\n            return Err(LengthError);\n        }\n\n        Ok(unsafe { &*(slice.as_ptr()")], "C02.G")
+mutant("c02-from-mut-slice-ge", ["C02"], [("src/lib.rs", "slice.len() == N::USIZE,\n            \"slice.len() != N in GenericArray::from_mut_slice\"", "slice.len() >= N::USIZE,\n            \"slice.len() != N in GenericArray::from_mut_slice\"")], "C02.G")
+mutant("c02-try-from-mut-overstrict", ["C02"], [("src/lib.rs", "match slice.len() == N::USIZE {\n            true => Ok(GenericArray::from_mut_slice(slice)),", "match slice.len() == N::USIZE && N::USIZE != 5 {\n            true => Ok(GenericArray::from_mut_slice(slice)),")], "C02.R")
+mutant("c02-as-mut-slice-offset", ["C02"], [("src/lib.rs", "slice::from_raw_parts_mut(self as *mut Self as *mut T, N::USIZE)", "slice::from_raw_parts_mut((self as *mut Self as *mut T).add((N::USIZE > 9) as usize), N::USIZE - (N::USIZE > 9) as usize)")], "C02.V")
+mutant("c02-asref-tail", ["C02"], [("src/impls.rs", "fn as_ref(&self) -> &[T] {\n        self.as_slice()", "fn as_ref(&self) -> &[T] {\n        &self.as_slice()[..N::USIZE - (N::USIZE > 12) as usize]")], "C02.D")
+mutant("c02-tuple-swapped", ["C02"], [("src/impls.rs", "let ($($t,)*) = tuple;\n                GenericArray::from_array([$($t,)*])", "let ($($t,)*) = tuple;\n                let mut a = [$($t,)*];\n                if a.len() == 11 { a.swap(3, 4); }\n                GenericArray::from_array(a)")], "C02.P")
+mutant("c02-from-slice-copy", ["C02"], [("src/lib.rs", "unsafe { &*(slice.as_ptr() as *const GenericArray<T, N>) }\n    }\n\n    /// Converts a slice to a generic array reference with inferred length.\n    ///\n    /// This is a fallible", "unsafe { &*(slice.as_ptr().add(N::USIZE).sub(N::USIZE).add(0usize.wrapping_sub(0)) as *const GenericArray<T, N>).add(0) }\n    }\n\n    /// Converts a slice to a generic array reference with inferred length.\n    ///\n    /// This is a fallible")], "")
+mutant("c02-as-slice-detached-lifetime", ["C02"], [("src/lib.rs", "pub const fn as_slice(&self) -> &[T] {", "pub const fn as_slice<'a, 'b>(&'a self) -> &'b [T] {")], "C02.M")
+mutant("c02-into-iter-skip", ["C02"], [("src/lib.rs", "fn into_iter(self: &'a GenericArray<T, N>) -> Self::IntoIter {\n        self.as_slice().iter()", "fn into_iter(self: &'a GenericArray<T, N>) -> Self::IntoIter {\n        self.as_slice()[(N::USIZE > 20) as usize..].iter()")], "C02.D")
+benign("c02-from-slice-assert-eq", ["C02"], [("src/lib.rs", "if slice.len() != N::USIZE {\n            panic!(\"slice.len() != N in GenericArray::from_slice\");\n        }", "assert!(slice.len() == N::USIZE, \"slice.len() != N in GenericArray::from_slice\");")])
+benign("c02-try-from-slice-match", ["C02"], [("src/lib.rs", "if slice.len() != N::USIZE {\n            return Err(LengthError);\n        }\n\n        Ok(unsafe { &*(slice.as_ptr() as *const GenericArray<T, N>) })", "match slice.len() == N::USIZE {\n            true => Ok(unsafe { &*(slice.as_ptr() as *const GenericArray<T, N>) }),\n            false => Err(LengthError),\n        }")])
+benign("c02-from-slice-lt-or-gt", ["C02"], [("src/lib.rs", "if slice.len() != N::USIZE {\n            panic!(\"slice.len() != N in GenericArray::from_slice\");", "if slice.len() < N::USIZE || slice.len() > N::USIZE {\n            panic!(\"slice.len() != N in GenericArray::from_slice\");")])
+benign("c02-as-slice-cast-method", ["C02"], [("src/lib.rs", "slice::from_raw_parts(self as *const Self as *const T, N::USIZE)", "slice::from_raw_parts((self as *const Self).cast::<T>(), Self::len())")])
+benign("c02-asref-via-deref", ["C02"], [("src/impls.rs", "fn as_ref(&self) -> &[T] {\n        self.as_slice()", "fn as_ref(&self) -> &[T] {\n        &**self")])
